@@ -140,7 +140,8 @@ class Stats:
     def add(self, spec, case, seed):
         self.evaluations += 1
         for lab in case.labels:
-            self.labels[lab] += 1
+            if lab:
+                self.labels[lab] += 1
         if case.nontrivial:
             h = spec_hash(spec)
             if h not in self.nt:
@@ -351,6 +352,8 @@ def run_property(prop_mod_name, tier, replay=None):
             st = allstats[s.name]
             for spec, case in s.custom({"tier": tier, "seed": seed_value}):
                 st.add(spec, case, seed_value)
+                if isinstance(spec, dict) and isinstance(spec.get("executions"), int):
+                    st.evaluations += max(0, spec["executions"] - 1)     # a fuzzing campaign reports its own count
     if jobs:
         ctx = multiprocessing.get_context("fork")
         with ctx.Pool(min(16, len(jobs))) as pool:
